@@ -55,6 +55,10 @@ structure V3 (K : Type) where
   z : K
 deriving Repr, BEq, DecidableEq
 
+instance {A B} [Inhabited A] [Inhabited B] : Inhabited (T2 A B) := ⟨⟨default, default⟩⟩
+instance {A B C} [Inhabited A] [Inhabited B] [Inhabited C] : Inhabited (T3 A B C) := ⟨⟨default, default, default⟩⟩
+instance {A B C D} [Inhabited A] [Inhabited B] [Inhabited C] [Inhabited D] : Inhabited (T4 A B C D) :=
+  ⟨⟨default, default, default, default⟩⟩
 instance {K} [Inhabited K] : Inhabited (V2 K) := ⟨⟨default, default⟩⟩
 instance {K} [Inhabited K] : Inhabited (V3 K) := ⟨⟨default, default, default⟩⟩
 instance {K} [Add K] : Add (V2 K) := ⟨fun a b => ⟨a.x + b.x, a.y + b.y⟩⟩
@@ -123,6 +127,9 @@ export FSignum (fsignum)
 /-- `n as f64` -/
 class OfInt (K : Type) where ofInt : Int → K
 export OfInt (ofInt)
+/-- `x as i32` for an `f64` (truncates towards zero, saturates, NaN gives 0) -/
+class FToI32 (K : Type) where toInt_i32 : K → Int
+export FToI32 (toInt_i32)
 /-- dot product of points -/
 class Dot (P : Type) (K : outParam Type) where dot : P → P → K
 export Dot (dot)
@@ -132,6 +139,12 @@ instance : FSqrt Float := ⟨Float.sqrt⟩
 instance : FSignum Float := ⟨fun a => if a.isNaN then a else if a.toBits >>> 63 == 1 then -1.0 else 1.0⟩
 instance : OfInt Float := ⟨Float.ofInt⟩
 instance : FConsts Float := ⟨Float.ofBits 0x7fefffffffffffff, Float.ofBits 0xffefffffffffffff, Float.ofBits 0x7ff0000000000000, Float.ofBits 0xfff0000000000000, Float.ofBits 0x3cb0000000000000⟩
+instance : FToI32 Float := ⟨fun a => (Float.toInt32 a).toInt⟩
+/-- truncation towards zero, saturated to the range of `i32` -/
+def truncI32 (x : Rat) : Int :=
+  let z := if x < 0 then x.ceil else x.floor
+  if z < -2147483648 then -2147483648 else if z > 2147483647 then 2147483647 else z
+instance : FToI32 Rat := ⟨truncI32⟩
 instance : FAbs Rat := ⟨fun x => if x < 0 then -x else x⟩
 instance : FSignum Rat := ⟨fun x => if x < 0 then -1 else 1⟩
 instance : OfInt Rat := ⟨fun n => (n : Rat)⟩
@@ -147,6 +160,15 @@ def fmax {K} [LT K] [DecidableLT K] [BEq K] (a b : K) : K := if a < b then b els
 
 /-- `for x in l { … }` as a left fold (list and initial state first, which helps elaboration) -/
 def foldlT {α β : Type} (l : List α) (init : β) (f : β → α → β) : β := List.foldl f init l
+
+/-- `for x in l { … }` whose body can `break`: `f` returns `inl s'` to go on with the next element and `inr s'` to
+    leave the loop -/
+def foldlBrk {α β : Type} : List α → β → (β → α → Sum β β) → β
+  | [], s, _ => s
+  | x :: xs, s, f =>
+    match f s x with
+    | .inl s' => foldlBrk xs s' f
+    | .inr s' => s'
 
 /-- how a loop body ends when it does not simply run into the next iteration -/
 inductive LoopExit (σ ρ : Type) where
@@ -179,5 +201,55 @@ def bitand (a b : Int) : Int :=
   if b < 0 then 0 else
     let n := b.toNat.log2 + 1
     Int.ofNat ((a.emod (2 ^ n : Nat)).toNat &&& b.toNat)
+
+/-! ### scan conversion (path_contour.rs, ray_cast_contour.rs) -/
+
+
+/-- `std::ops::Range<f64>` (`start..end`) -/
+structure RangeT (K : Type) where
+  start : K
+  end_ : K
+deriving Repr, BEq, DecidableEq
+
+/-- `ContourIntercept` of path_contour.rs: one hit of a scanline on curve number `curve_idx` at parameter `t` -/
+structure InterceptT (K : Type) where
+  curve_idx : Nat
+  t : K
+  x_pos : K
+deriving Repr, BEq, DecidableEq
+
+instance {K} [Inhabited K] : Inhabited (RangeT K) := ⟨⟨default, default⟩⟩
+instance {K} [Inhabited K] : Inhabited (InterceptT K) := ⟨⟨0, default, default⟩⟩
+
+/-- `a.total_cmp(&b) != Greater`: the total order of `f64::total_cmp` (−0 before +0, NaNs at the ends) -/
+class FTotalLe (K : Type) where ftotalLe : K → K → Bool
+export FTotalLe (ftotalLe)
+
+/-- key of `f64::total_cmp`: the bits as a sign-magnitude integer made monotone -/
+def totalKey (a : Float) : UInt64 :=
+  let b := a.toBits
+  if b >>> 63 == 1 then ~~~ b else b ||| 0x8000000000000000
+instance : FTotalLe Float := ⟨fun a b => totalKey a ≤ totalKey b⟩
+instance : FTotalLe Rat := ⟨fun a b => decide (a ≤ b)⟩
+
+/-- `Itertools::tuples()` for pairs: consecutive disjoint pairs, a trailing single element is dropped -/
+def listPairs {α : Type} : List α → List (T2 α α)
+  | a :: b :: rest => T2.mk a b :: listPairs rest
+  | _ => []
+
+/-- `Iterator::enumerate()` -/
+def listEnumFrom {α : Type} : Nat → List α → List (T2 Nat α)
+  | _, [] => []
+  | n, a :: rest => T2.mk n a :: listEnumFrom (n + 1) rest
+def listEnum {α : Type} (l : List α) : List (T2 Nat α) := listEnumFrom 0 l
+
+/-- insertion of one element into a sorted list, after every element that is not greater (stable) -/
+def insertSorted {α : Type} (le : α → α → Bool) (x : α) : List α → List α
+  | [] => [x]
+  | y :: ys => if le y x then y :: insertSorted le x ys else x :: y :: ys
+
+/-- `sort_by` / `sort_unstable_by` with `le a b = (cmp(a, b) != Greater)`: a stable insertion sort. (Rust's unstable sort is this
+    very insertion sort up to 20 elements; beyond that the order among equal keys is unspecified.) -/
+def listSortBy {α : Type} (le : α → α → Bool) (l : List α) : List α := l.foldl (fun acc x => insertSorted le x acc) []
 
 end Prelude
